@@ -447,6 +447,9 @@ type ExecAction struct {
 	// Args represents optional 'args' field in 'with' section. Nil field means nothing specified
 	// https://docs.github.com/en/actions/learn-github-actions/workflow-syntax-for-github-actions#jobsjob_idstepswithargs
 	Args *String
+	// Positions of the 'entrypoint' and 'args' keys in 'with' section. They are nil when the keys are not specified
+	entrypointKeyPos *Pos
+	argsKeyPos       *Pos
 }
 
 // Kind returns kind of the step execution.
